@@ -196,6 +196,7 @@ def run_steps(st, steps, serial, tids, d, built, index0=0):
         t = TransactionMetaData(bytes.fromhex(s['u']), bytes.fromhex(s['d']), ext)
         st.tpc_begin(t, p64(s['t']))
         written = []
+        aborted = False
         for op in s['ops']:
             try:
                 if op[0] == 's':
@@ -218,11 +219,20 @@ def run_steps(st, steps, serial, tids, d, built, index0=0):
                     if target is None:
                         built.skipped += 1
                         continue
-                    _, oids = st.undo(base64.encodebytes(target).rstrip(b'\n'), t)
+                    try:
+                        _, oids = st.undo(base64.encodebytes(target).rstrip(b'\n'), t)
+                    except UndoError:
+                        # a failed undo leaves records in the temp file: the transaction must abort
+                        aborted = True
+                        break
                     written += list(oids)
                     built.undos += 1
             except (UndoError, POSKeyError, ConflictError, KeyError):
                 built.skipped += 1
+        if aborted:
+            st.tpc_abort(t)
+            built.skipped += 1
+            continue
         st.tpc_vote(t)
         st.tpc_finish(t)
         tids[index0 + k] = p64(s['t'])
@@ -265,7 +275,11 @@ def build(prog, d, name='src'):
 # =================================================================== dumps (observations)
 def ext_bytes(t):
     eb = getattr(t, 'extension_bytes', None)
-    return eb if isinstance(eb, bytes) else b''
+    if isinstance(eb, bytes):
+        return eb
+    # a record of a volatile storage (MappingStorage) only has the dictionary; the copy pickles it
+    from ZODB.Connection import TransactionMetaData
+    return TransactionMetaData(extension=t.extension).extension_bytes
 
 
 def ext_repr(t):
@@ -275,14 +289,16 @@ def ext_repr(t):
         return 'unreadable:' + type(e).__name__
 
 
-def iter_dump(it):
-    """[(tid, status, user, desc, ext_bytes, ext_repr, [(oid, rtid, data|None, hint|None)])]"""
+def iter_dump(it, unpickle_ext=True):
+    """[(tid, status, user, desc, ext_bytes, ext_repr, [(oid, rtid, data|None, hint|None)])]
+    (unpickle_ext=False for recovered files: a damaged extension pickle must not be loaded)"""
     out = []
     for t in it:
         recs = [(r.oid.hex(), r.tid.hex(), None if r.data is None else r.data.hex(),
                  None if getattr(r, 'data_txn', None) is None else r.data_txn.hex()) for r in t]
         out.append((t.tid.hex(), t.status if isinstance(t.status, str) else t.status.decode(),
-                    t.user.hex(), t.description.hex(), ext_bytes(t).hex(), ext_repr(t), recs))
+                    t.user.hex(), t.description.hex(), ext_bytes(t).hex(),
+                    ext_repr(t) if unpickle_ext else '', recs))
     return out
 
 
@@ -728,7 +744,7 @@ def recover_worker(conn, workdir, jobs):
         if obs['status'] == 'done':
             try:
                 fs = ZODB.FileStorage.FileStorage(outp, read_only=True)
-                obs['dump'] = iter_dump(fs.iterator())
+                obs['dump'] = iter_dump(fs.iterator(), unpickle_ext=False)
                 fs.close()
                 with open(outp, 'rb') as f:
                     o = f.read()
